@@ -91,6 +91,35 @@ func GenLemma(prog *Prog, sp *ssa.Package, l *Lemma, qn string) *VC {
 			addCover()
 		}
 		switch s.Kind {
+		case "let":
+			v, err := ctx.EvalVal(s.E)
+			if err != nil {
+				vc.errorf("lemma %s let %q: %v", l.Name, s.Text, err)
+				continue
+			}
+			// an opaque name equal to the value (keeps element accesses in idx form)
+			name := vc.decl("let."+s.Results[0], enc.sortOf(v.Typ))
+			vc.emit(fmt.Sprintf("(assert (= %s %s))", name, v.T))
+			vars[s.Results[0]] = Val{T: name, Typ: v.Typ}
+		case "use":
+			// a previously proved lemma (its own obligation is discharged separately) may be used as a fact
+			cf := prog.Contracts[sp.Pkg.Path()]
+			ul := cf.Lemmas[s.Callee]
+			if ul == nil || ul.E == nil {
+				vc.errorf("lemma %s: cannot use %s (not a plain lemma of this package)", l.Name, s.Callee)
+				continue
+			}
+			if ul.Line >= l.Line {
+				vc.errorf("lemma %s: used lemma %s must be stated earlier (no circular use)", l.Name, s.Callee)
+				continue
+			}
+			t, err := ctx.EvalBool(ul.E)
+			if err != nil {
+				vc.errorf("lemma %s use %s: %v", l.Name, s.Callee, err)
+				continue
+			}
+			vc.assume(t)
+			vc.uses = append(vc.uses, s.Callee)
 		case "assume":
 			t, err := ctx.EvalBool(s.E)
 			if err != nil {
